@@ -19,7 +19,7 @@ for pid in ids:
         "evidence_file": f"/verif/evidence/{pid}.json",
         "replay_cmd_template": f"./check {pid} --replay {{path}}",
         "engine": "coq-model+correspondence",
-        "level_claimed": {"category": "proof", "text": cfg["level_text"], "design_ref": cfg.get("design_ref", f"DESIGN.md section 6, {pid}")},
+        "level_claimed": {"category": "proof", "text": cfg["level_text"] + cfg.get("level_suffix", ""), "design_ref": cfg.get("design_ref", f"DESIGN.md section 6, {pid}")},
         "level_note": cfg.get("level_note", P.DEFAULT_LEVEL_NOTE),
         "technique": cfg.get("technique", "Coq 8.16 theorems over a hand-written executable Gallina model + per-run differential correspondence check (model extracted to OCaml vs the real crate) + model-independent property oracles"),
     })
